@@ -145,6 +145,9 @@ class SidecarValidator:
         for column_data in sidecar:
             column_name = column_data.column_name
             hed_strings = column_data.get_hed_strings()
+            if column_data.column_type is None and isinstance(column_data.hed_dict, str):
+                # A value string lacking '#' has no column type yet, but its references must still be screened.
+                hed_strings = column_data._get_unvalidated_data().get_hed_strings()
             error_handler.push_error_context(ErrorContext.SIDECAR_COLUMN_NAME, column_name)
             matches = []
             for key_name, hed_string in hed_strings.items():
